@@ -113,6 +113,8 @@ def main(spec_path: str) -> int:
     problem = scenario.formulation.optimization_problem
     database = problem.database
     c12_disc.LOG.open(spec["log"], spec.get("crash_k"), spec.get("crash_in", "run"))
+    if spec.get("trace"):
+        c12_disc.LOG.database = database
     bk = spec.get("backup")
     pre = None
     if bk:
@@ -130,10 +132,11 @@ def main(spec_path: str) -> int:
             c12_disc.LOG.write({"ev": "store", "x": flt(x), "names": list(outs), "n": len(database)})
 
         def on_iter(x):
-            c12_disc.LOG.write({"ev": "newiter", "x": flt(x), "n": len(database)})
+            c12_disc.LOG.write({"ev": "newiter", "x": flt(x), "n": len(database), "db": c12_disc.LOG.db_names()})
 
-        problem.add_listener(on_store, at_each_iteration=False, at_each_function_call=True)
-        problem.add_listener(on_iter, at_each_iteration=True, at_each_function_call=False)
+        # attached to the database directly (not through problem.add_listener, which is code under test)
+        database.add_store_listener(on_store)
+        database.add_new_iter_listener(on_iter)
         trace_requests(problem, bool(spec["scenario"].get("normalized")))
     algo = dict(spec["scenario"]["algo"])
     if "samples" in algo:
